@@ -7,4 +7,8 @@ for f in translator/specs/c*.py; do
   out="$(/venv/bin/python harness/vlib/translate.py "$id" 2>&1 | grep -v conda)"
   if echo "$out" | grep -q '^LINKED'; then echo "$id: $(echo "$out" | grep '^LINKED' | cut -c1-90)"; else echo "$id: FAILED"; echo "$out" | head -40; rc=1; fi
 done
+# conformance of the trusted prelude / idioms / mapped callees against CPython (writes build/conformance.stamp.json)
+out="$(/venv/bin/python translator/conformance.py 2>&1 | grep -v conda)"
+echo "$out" | grep -E '^(DISAGREE|FAILED|conformance:)'
+echo "$out" | grep -q '^conformance: .* 0 failures' || rc=1
 exit $rc
